@@ -118,6 +118,8 @@ def one_case(ctx, res, i, reqs, impls):
     ctx_name = bytes(rng.randrange(256) for _ in range(rng.choice([0, 0, 5, 127, 300])))
     ctx_engine = bytes(rng.randrange(256) for _ in range(rng.choice([0, 0, 12, 32, 130])))
     engine_id = b"\x80\x00\x1f\x88" + bytes(rng.randrange(256) for _ in range(rng.choice([1, 8, 28, 124, 300])))
+    if rng.random() < 0.2:  # engine ids with long runs of zero octets (IPv6 / MAC formats) and of 0xff
+        engine_id = rng.choice([b"\x80\x00\x02\xb8\x02\xfe\x80" + b"\x00" * 13 + b"\x01", b"\x80\x00\x00\x00" + b"\x00" * 24, b"\x80\x00\x1f\x88" + b"\xff" * 20])
     agent = RA.Agent(db=[((1, 3, 6, 1, 2, 1, 1, 1, 0), ["int", 1])], v3=RA.V3Config(engine_id=engine_id, boots=rng.choice([0, 1, 2**31 - 1]), clock=lambda t=rng.choice([0, 127, 128, 2**31 - 1]): t))
     seam = Seam(agent)
     if version == "v3":
